@@ -589,8 +589,21 @@ def rule_L6(ctx):
                 ok = all(norm(v_) == f"container[{k_.value!r}][{iv}]" for k_, v_ in zip(dn.keys, dn.values))
                 checked = [d_ for d_ in own_nodes(ka) if isinstance(d_, ast.Dict) and d_.keys and all(isinstance(k_, ast.Constant) for k_ in d_.keys)
                            and all(isinstance(v_, ast.Compare) and "len(container[" in norm(v_) for v_ in d_.values)]
-                ok = ok and len(checked) == 1 and [k_.value for k_ in checked[0].keys] == [k_.value for k_ in dn.keys] \
+                ok_d = len(checked) == 1 and [k_.value for k_ in checked[0].keys] == [k_.value for k_ in dn.keys] \
                     and all(norm(v_.left if "len(" in norm(v_.left) else v_.comparators[0]) == f"len(container[{k_.value!r}])" for k_, v_ in zip(checked[0].keys, checked[0].values))
+                if not ok_d and not checked:
+                    # the length check written as a selection over the literal list of names: (n for n in ("a", "b", ..) if len(container[n]) != N)
+                    sel = []
+                    for c_ in own_nodes(ka):
+                        if isinstance(c_, (ast.GeneratorExp, ast.ListComp, ast.SetComp, ast.DictComp)) and len(c_.generators) == 1 and isinstance(c_.generators[0].target, ast.Name) \
+                                and isinstance(c_.generators[0].iter, (ast.Tuple, ast.List)) and all(isinstance(e_, ast.Constant) and isinstance(e_.value, str) for e_ in c_.generators[0].iter.elts):
+                            v_ = c_.generators[0].target.id
+                            tests = list(c_.generators[0].ifs) + ([c_.elt] if not isinstance(c_, ast.DictComp) else [c_.value])
+                            if any(isinstance(t_, ast.Compare) and len(t_.ops) == 1 and isinstance(t_.ops[0], (ast.NotEq, ast.Eq))
+                                   and f"len(container[{v_}])" in (norm(t_.left), norm(t_.comparators[0])) for t_ in tests):
+                                sel.append([e_.value for e_ in c_.generators[0].iter.elts])
+                    ok_d = len(sel) == 1 and sel[0] == [k_.value for k_ in dn.keys]
+                ok = ok and ok_d
         det = "" if ok else f"zone is built from {sorted(resolved)}"
     ctx.ob("L6", vz[0] if vz else ka, "zone i is built from its own record plus the per-zone auxiliary values [i], enumerating the stored zones in order", ok, det, inst="VelocityZone")
     try:
@@ -600,8 +613,35 @@ def rule_L6(ctx):
     zc = [f[0] for f in prog.dataclass_fields(prog.klass(AK + "keygroup.py", "VelocityZoneCommon", "L6"))]
     ctx.ob("L6", ka, "velocity-zone record fields are exactly the VelocityZoneCommon fields", sorted(zn) == sorted(zc), f"{sorted(set(zn) ^ set(zc))}", inst="zone-fields")
     aux = {e.value for n in own_nodes(ka) if isinstance(n, ast.Assign) and isinstance(n.value, ast.Tuple) for e in n.value.elts if isinstance(e, ast.Constant)}
+    if not aux and vz:
+        # the table written out at the zone construction: the keys of the auxiliary mapping handed to VelocityZone
+        for k in vz[0].keywords:
+            if k.arg is None:
+                v = k.value
+                if isinstance(v, ast.Name):
+                    d = [a for a in own_nodes(ka) if isinstance(a, ast.Assign) and norm(a.targets[0]) == v.id]
+                    v = d[0].value if len(d) == 1 else v
+                if isinstance(v, ast.Dict) and v.keys and all(isinstance(k_, ast.Constant) for k_ in v.keys):
+                    aux |= {k_.value for k_ in v.keys}
     ok = aux == {"enable_key_tracking", "aux_out_offset", "velocity_to_sample_start"}
     ctx.ob("L6", ka, "the three per-zone auxiliary arrays are distributed to the zones", ok, f"{sorted(aux)}", inst="zone-aux")
+    # the keygroup handed back carries the zones that were built - on every path, also when there are none (the dataclass default is
+    # one blank zone, not an empty list)
+    from .util import call_parts as _cpk
+    okk, detk, n_ret = True, "", 0
+    for p_ in run_paths(ctx, ka, rule="L6", limit=4000):
+        if p_.end != "return" or p_.ret is None:
+            continue
+        n_ret += 1
+        fname_, pos_, kw_ = _cpk(p_.ret.key())
+        if fname_ != "Keygroup" or "velocity_zones" not in kw_:
+            # a keyword dict filled step by step: what the path stores under the key
+            stored = [s_ for s_ in p_.steps if s_.kind == "stmt" and isinstance(s_.ast, ast.Assign) and len(s_.ast.targets) == 1 and isinstance(s_.ast.targets[0], ast.Subscript)
+                      and isinstance(s_.ast.targets[0].slice, ast.Constant) and s_.ast.targets[0].slice.value == "velocity_zones"]
+            splat = fname_ == "Keygroup" or p_.ret.key().startswith("Keygroup(")
+            if not (splat and stored):
+                okk, detk = False, f"on a path the keygroup is returned as `{p_.ret.key()[:120]}` without its velocity_zones: the class default (one blank zone) is shown instead of the stored zones"
+    ctx.ob("L6", ka, "the keygroup is built with the list of zones that were read, whether or not it is empty", okk and n_ret >= 1, detk, inst="keygroup-zones")
     # CDDA track info fields
     at = prog.klass("smpl_extract/cdda/image.py", "AudioTrack", "L6")
     names = [f[0] for f in prog.dataclass_fields(at)]
@@ -1041,7 +1081,15 @@ def rule_L8c(ctx):
     ctx.ob("L8c", at, "CDDA track exports as 2 channels at the track's rate", ok, f"{kw}", inst="Sample-kw")
     atc = ctx.prog.klass(im, "AudioTrack", "L8c")
     dfl = {f[0]: (norm(f[2]) if f[2] is not None else None) for f in ctx.prog.dataclass_fields(atc)}
-    ok = dfl.get("sample_rate") == "44100" and dfl.get("bytes_per_sample") == "2" and dfl.get("num_channels") == "2"
+    dfv = {}
+    for f in ctx.prog.dataclass_fields(atc):
+        if f[2] is not None and f[0] in ("sample_rate", "bytes_per_sample", "num_channels"):
+            try:
+                dfv[f[0]] = ctx.folder.ev(f[2], ctx.prog.by_path[im])  # literal or a module constant
+            except Exception:
+                dfv[f[0]] = None
+    ok = dfv.get("sample_rate") == 44100 and dfv.get("bytes_per_sample") == 2 and dfv.get("num_channels") == 2 \
+        and not any(isinstance(v_, bool) for v_ in dfv.values())
     ctx.ob("L8c", atc, "AudioTrack defaults: 44100 Hz, 2 bytes, 2 channels", ok, f"{dfl}", inst="AudioTrack-defaults")
 
 
